@@ -20,6 +20,21 @@ const (
 	opSDec = "sdec"
 	opRun  = "run"
 	opRunH = "runh"
+	// calls that fail as documented and must leave every registration made so far untouched (class rejected)
+	opDupAdd    = "dupaddh" // AddHandler / AddNoPublisherHandler with the name of handler H, which is taken: panics with DuplicateHandlerNameError (recovered)
+	opEarlyRunH = "runh!"   // RunHandlers before Run: returns an error
+	opEarlyStop = "stop!"   // Handler.Stop on the not yet started handler H: panics (recovered)
+	// opReuse (class reuse): the running handler H is stopped and its NAME is registered again as handler N
+	// (AddHandler / AddNoPublisherHandler), followed at once by N.AddMiddleware(IDs...); the step ends when H.Stopped() is closed.
+	opReuse = "reuse"
+)
+
+// how the re-registration of a reused name is timed relative to the end of the old handler (step.Mode)
+const (
+	modeWait     = "wait"      // after <-old.Stopped()
+	modeStep     = "step"      // the logger parks every call of the stopping handler's goroutine; at each parked call the caller looks at Router.Handlers() and re-registers as soon as the name is no longer listed
+	modePoll     = "poll"      // a goroutine started before the stop retries AddHandler until DuplicateHandlerNameError is gone; the logger only yields
+	modePollSlow = "poll-slow" // same, with a slow logger: every call of the stopping handler's goroutine is held until the retrying goroutine made a few more attempts or is done
 )
 
 type step struct {
@@ -34,6 +49,24 @@ type step struct {
 	// Poison: right after the call returned the caller overwrites every element of the argument slice with a
 	// middleware / decorator that was never registered.
 	Poison bool
+	// Variant: dupaddh through AddNoPublisherHandler (else AddHandler).
+	Variant bool
+	// opReuse: N = index of the handler that takes over H's name, Mode = timing of the re-registration, StopBy = "stop"
+	// (Handler.Stop) or "subclose" (the handler's subscription ends: its Subscriber is closed).
+	N      int
+	Mode   string
+	StopBy string
+}
+
+// mwTarget: the handler index (-1 = router level) a step registers middlewares for; ok=false when it registers none.
+func (s step) mwTarget() (int, bool) {
+	switch s.Op {
+	case opMW:
+		return s.H, true
+	case opReuse:
+		return s.N, true
+	}
+	return 0, false
 }
 
 // fault makes a decorator constructor, or the Subscribe call of a handler's subscriber, fail transiently.
@@ -70,6 +103,9 @@ type program struct {
 	// RetryRun: after a Run call that returned an injected error the caller first calls Run again (the router refuses
 	// that: "router is already running"), then RunHandlers.
 	RetryRun bool
+	// HasRejected / HasReuse: the program contains rejected calls / reused names (classes rejected, reuse).
+	HasRejected bool
+	HasReuse    bool
 }
 
 func (p *program) String() string {
@@ -89,6 +125,16 @@ func (p *program) String() string {
 			fmt.Fprintf(&b, "mw(%s:%s)%s", t, ints(s.IDs), s.argMark())
 		case opPDec, opSDec:
 			fmt.Fprintf(&b, "%s(%s)%s", s.Op, ints(s.IDs), s.argMark())
+		case opDupAdd:
+			if s.Variant {
+				fmt.Fprintf(&b, "dupaddnp(h%d)", s.H)
+			} else {
+				fmt.Fprintf(&b, "dupaddh(h%d)", s.H)
+			}
+		case opEarlyStop:
+			fmt.Fprintf(&b, "stop!(h%d)", s.H)
+		case opReuse:
+			fmt.Fprintf(&b, "reuse(h%d->h%d:%s;%s,%s)", s.H, s.N, ints(s.IDs), s.Mode, s.StopBy)
 		default:
 			b.WriteString(s.Op)
 		}
@@ -137,6 +183,12 @@ type expect struct {
 	// must show the same trace (registrations after the start are unspecified and never judged).
 	Stable  bool
 	Foreign bool // some other handler's middleware is registered before this handler starts
+	// reuse class: Stopped = the handler is stopped by a later reuse step (no second-round message); Reused = the handler took
+	// over the name of a stopped one; PredOwn = that one had handler-level middlewares of its own (inheritance observable)
+	Stopped bool
+	Reused  bool
+	PredOwn bool
+	Own     int // handler-level middlewares of its own
 }
 
 func model(p *program) []expect {
@@ -145,10 +197,19 @@ func model(p *program) []expect {
 	var pd, sd []int
 	added := map[int]bool{}
 	ex := make([]expect, len(p.Handlers))
+	stopped := map[int]bool{}
+	pred := map[int]int{}
 	for _, s := range p.Steps {
 		switch s.Op {
 		case opAddH:
 			added[s.H] = true
+		case opReuse:
+			stopped[s.H] = true
+			added[s.N] = true
+			pred[s.N] = s.H
+			for _, id := range s.IDs {
+				regs = append(regs, reg{id, s.N})
+			}
 		case opMW:
 			for _, id := range s.IDs {
 				regs = append(regs, reg{id, s.H})
@@ -173,6 +234,9 @@ func model(p *program) []expect {
 				for _, r := range regs {
 					if r.target < 0 || r.target == h {
 						e.MW = append(e.MW, r.id)
+						if r.target == h {
+							e.Own++
+						}
 					} else {
 						e.Foreign = true
 					}
@@ -181,6 +245,12 @@ func model(p *program) []expect {
 				e.SDec = append([]int(nil), sd...)
 				ex[h] = e
 			}
+		}
+	}
+	for h := range ex {
+		ex[h].Stopped = stopped[h]
+		if o, ok := pred[h]; ok {
+			ex[h].Reused, ex[h].PredOwn = true, ex[o].Own > 0
 		}
 	}
 	return ex
@@ -631,4 +701,224 @@ func retryProgram(r *vlib.Rand, id string, family int) *program {
 		p.Faults = append(p.Faults, f)
 	}
 	return p
+}
+
+// ---------------------------------------------------------------------------------------------
+// Class rejected: a random program interleaved with calls that fail as documented. A failing call registers nothing and
+// must leave the registrations made so far as they are.
+
+func addIdx(p *program, h int) int {
+	for i, s := range p.Steps {
+		if (s.Op == opAddH && s.H == h) || (s.Op == opReuse && s.N == h) {
+			return i
+		}
+	}
+	return -1
+}
+
+// startIdx: index of the Run/RunHandlers step that starts handler h.
+func startIdx(p *program, h int) int {
+	a := addIdx(p, h)
+	if a < 0 {
+		return -1
+	}
+	for i := a + 1; i < len(p.Steps); i++ {
+		if p.Steps[i].Op == opRun || p.Steps[i].Op == opRunH {
+			return i
+		}
+	}
+	return -1
+}
+
+// ownBefore: index of the first handler-level registration for h (-1 if none).
+func firstOwnIdx(p *program, h int) int {
+	for i, s := range p.Steps {
+		if t, ok := s.mwTarget(); ok && t == h && len(s.IDs) > 0 {
+			return i
+		}
+	}
+	return -1
+}
+
+func rejectedProgram(r *vlib.Rand, id string) *program {
+	p := randProgram(r, id)
+	p.HasRejected = true
+	insertRejected(r, p, r.Range(1, 4), 0)
+	return p
+}
+
+// insertRejected inserts n failing calls at positions >= from. Most of them hit a handler that has handler-level
+// middlewares and is not yet started (what such a call could damage is observable only then).
+func insertRejected(r *vlib.Rand, p *program, n, from int) {
+	for i := 0; i < n; i++ {
+		var cand, withOwn []int
+		for h := range p.Handlers {
+			if a, s := addIdx(p, h), startIdx(p, h); a >= 0 && s >= 0 && s >= from {
+				cand = append(cand, h)
+				if f := firstOwnIdx(p, h); f >= 0 && f < s {
+					withOwn = append(withOwn, h)
+				}
+			}
+		}
+		if len(cand) == 0 {
+			return
+		}
+		h := cand[r.Intn(len(cand))]
+		if len(withOwn) > 0 && r.Chance(0.8) {
+			h = withOwn[r.Intn(len(withOwn))]
+		}
+		a, s, f := addIdx(p, h), startIdx(p, h), firstOwnIdx(p, h)
+		lo := a + 1
+		if lo < from {
+			lo = from
+		}
+		if lo > s {
+			lo = s
+		}
+		runAt := -1
+		for k, st := range p.Steps {
+			if st.Op == opRun {
+				runAt = k
+			}
+		}
+		switch x := r.Intn(20); {
+		case x < 2 && runAt >= from:
+			p.Steps = insertSteps(p.Steps, r.Range(from, runAt), []step{{Op: opEarlyRunH}})
+		case x < 5:
+			p.Steps = insertSteps(p.Steps, r.Range(lo, s), []step{{Op: opEarlyStop, H: h}})
+		default:
+			at := r.Range(lo, s) // between AddHandler(h) and the call that starts h
+			switch y := r.Intn(10); {
+			case y < 6 && f >= 0 && f < s && f+1 >= lo:
+				at = r.Range(f+1, s) // after at least one of h's own registrations
+			case y >= 8:
+				at = r.Range(lo, len(p.Steps)) // anywhere later, also when h is already running
+			}
+			p.Steps = insertSteps(p.Steps, at, []step{{Op: opDupAdd, H: h, Variant: r.Bool()}})
+		}
+	}
+}
+
+// ---------------------------------------------------------------------------------------------
+// Class reuse: a random program (all of whose handlers are running and have handled a message at its end) followed by
+// 1..3 rounds in which a running handler is stopped and its name is registered again.
+
+func reuseProgram(r *vlib.Rand, id string) *program {
+	p := randProgram(r, id)
+	p.HasReuse = true
+	nextID := 0
+	for _, s := range p.Steps {
+		if s.Op == opMW {
+			for _, x := range s.IDs {
+				if x >= nextID {
+					nextID = x + 1
+				}
+			}
+		}
+	}
+	ids := func(n int) []int {
+		var v []int
+		for i := 0; i < n; i++ {
+			v = append(v, nextID)
+			nextID++
+		}
+		return v
+	}
+	own := map[int]int{} // handler -> number of handler-level middlewares
+	for _, s := range p.Steps {
+		if s.Op == opMW && s.H >= 0 {
+			own[s.H] += len(s.IDs)
+		}
+	}
+	live := []int{0, 1, 2, 3}
+	rounds := r.Range(1, 3)
+	for k := 0; k < rounds; k++ {
+		var st []step
+		slot := r.Intn(len(live))
+		if r.Chance(0.7) { // prefer a handler that has middlewares of its own (what its successor must not inherit)
+			var c []int
+			for i, h := range live {
+				if own[h] > 0 {
+					c = append(c, i)
+				}
+			}
+			if len(c) > 0 {
+				slot = c[r.Intn(len(c))]
+			}
+		}
+		old := live[slot]
+		// a bystander: a new handler whose name extends the reused one, registered (with middlewares of its own) BEFORE
+		// the stop and started together with the re-registered handler
+		if r.Chance(0.35) {
+			b := len(p.Handlers)
+			p.Handlers = append(p.Handlers, hspec{Name: fmt.Sprintf("%sb%d", p.Handlers[old].Name, k), Out: r.Range(0, 1)})
+			st = append(st, step{Op: opAddH, H: b})
+			if n := r.Range(0, 2); n > 0 {
+				st = append(st, step{Op: opMW, H: b, IDs: ids(n)})
+				own[b] = n
+			}
+		}
+		nw := len(p.Handlers)
+		hs := hspec{Name: p.Handlers[old].Name, Out: r.Range(0, 2)}
+		if r.Chance(0.3) {
+			hs.NoPub, hs.Out = true, 0
+		}
+		p.Handlers = append(p.Handlers, hs)
+		ru := step{Op: opReuse, H: old, N: nw, StopBy: "stop"}
+		switch x := r.Intn(20); {
+		case x < 4:
+			ru.Mode = modeWait
+		case x < 10:
+			ru.Mode = modeStep
+		case x < 17:
+			ru.Mode = modePollSlow
+		default:
+			ru.Mode = modePoll
+		}
+		if !p.SharedSub && r.Chance(0.3) {
+			ru.StopBy = "subclose"
+		}
+		n1 := r.Range(0, 3)
+		if r.Chance(0.6) {
+			n1 = r.Range(1, 3)
+		}
+		ru.IDs = ids(n1)
+		own[nw] = n1
+		st = append(st, ru)
+		// after old.Stopped(): further registrations in random order, then RunHandlers
+		var tail []step // IDs: only the count matters here, the ids are given in call order below
+		if r.Chance(0.5) {
+			tail = append(tail, step{Op: opMW, H: -1, IDs: make([]int, r.Range(1, 2))})
+		}
+		if r.Chance(0.5) {
+			n := r.Range(1, 2)
+			tail = append(tail, step{Op: opMW, H: nw, IDs: make([]int, n)})
+			own[nw] += n
+		}
+		if r.Chance(0.25) {
+			tail = append(tail, step{Op: opMW, H: -1, IDs: make([]int, 1)})
+		}
+		for _, j := range r.Perm(len(tail)) {
+			t := tail[j]
+			t.IDs = ids(len(t.IDs))
+			st = append(st, t)
+		}
+		st = append(st, step{Op: opRunH})
+		from := len(p.Steps)
+		p.Steps = append(p.Steps, st...)
+		if r.Chance(0.4) {
+			insertRejected(r, p, r.Range(1, 2), from)
+		}
+		live[slot] = nw
+	}
+	return p
+}
+
+func countReuse(p *program) (n int) {
+	for _, s := range p.Steps {
+		if s.Op == opReuse {
+			n++
+		}
+	}
+	return
 }
